@@ -302,7 +302,10 @@ func reportViolation(bin string, known *knownFile, prop, tier string, baseSeed u
 		th2 = o2.res.TraceHash
 	}
 	if th != th2 {
-		die2("replay of the minimised case is not exact: trace %s vs %s", th, th2)
+		os.MkdirAll(filepath.Join(verifDir, "replays"), 0o755)
+		data, _ := json.MarshalIndent(min, "", " ")
+		os.WriteFile(filepath.Join(verifDir, "replays", fmt.Sprintf("nondet-%s-%d.json", prop, o.c.Seed)), data, 0o644)
+		die2("replay of the minimised case is not exact: trace %s vs %s (case kept under replays/nondet-*)", th, th2)
 	}
 	min.Expect = &cf.Expect{Rule: got.Rule, TraceHash: th, Detail: got.Detail}
 	os.MkdirAll(filepath.Join(verifDir, "replays"), 0o755)
@@ -390,9 +393,8 @@ func cmdSelftest(n int) int {
 	}
 	hashes := map[key]map[string]int{}
 	bad := 0
-	for _, gmp := range []string{"1", "4", "16"} {
-		os.Setenv("GOMAXPROCS", gmp)
-		runMany(bin, cases, 16, func(o *outcome) bool {
+	for _, par := range []int{2, 8, 16} {
+		runMany(bin, cases, par, func(o *outcome) bool {
 			h := "crash/" + o.infra
 			if o.res != nil {
 				h = o.res.TraceHash + "/" + o.res.Verdict
@@ -405,14 +407,13 @@ func cmdSelftest(n int) int {
 			return true
 		})
 	}
-	os.Unsetenv("GOMAXPROCS")
 	for k, m := range hashes {
 		if len(m) != 1 {
 			bad++
 			fmt.Printf("NONDETERMINISTIC %s seed=%d: %v\n", k.p, k.s, m)
 		}
 	}
-	fmt.Printf("selftest: %d cases x 9 executions (3 per GOMAXPROCS env 1/4/16), %d nondeterministic\n", len(hashes), bad)
+	fmt.Printf("selftest: %d cases x 9 fresh-process executions (3 each at 2, 8 and 16 workers in parallel), %d nondeterministic\n", len(hashes), bad)
 	if bad > 0 {
 		return 2
 	}
